@@ -1,6 +1,6 @@
 (* C05/Proofs_hist.v — facts about whole histories: state invariant, stability of the variable list,
    re-adding, configurations that were never accepted. *)
-From CF Require Import C05.Model C05.Proofs_add C05.Proofs_flags.
+Require Import CF.C05.Model CF.C05.Proofs_add CF.C05.Proofs_flags.
 From Coq Require Import ZifyBool.
 Open Scope Z_scope.
 
@@ -296,4 +296,15 @@ Proof.
   - exact Hc.
   - exact Hc.
   - exact Hc.
+Qed.
+
+Lemma readd_idempotent s h evs :
+  valid_h s h = true -> snd (add_config s h) = AccAccepted ->
+  forallb (fun e => negb (touches h e)) evs = true ->
+  let s1 := fst (fst (add_config s h)) in
+  c_vars (get (final s1 evs) h) = c_vars (get s1 h) /\ c_dfa (get (final s1 evs) h) = [].
+Proof.
+  intros Hv Ha Ht. cbn zeta.
+  pose proof (accepted_dfa_nil s h Hv Ha) as P. cbv zeta in P. destruct P as (Hd & _).
+  now apply run_static.
 Qed.
